@@ -68,8 +68,14 @@ _COMMON = [
     "the channel iterators after every prefix of next()/next_back() calls x every positional call (nth, skip, step_by, last, count, "
     "collect, rev, nth_back) x every argument up to one past the end; "
     "every (N, L<=2N+1); every pair of lengths 0..4) plus seeded random cases on every width 1..32 and the bare sample on all 14 formats",
+    "the identity operations (gain exactly 1.0 / the all-ones frame, offset 0 / the zero frame, in-place add of the zero slice and "
+    "add-with-gain 1.0) are driven on the EXTREME values of every format: MAX - d and MIN + d for d in 0..3 and around the float "
+    "precision 2^(bits-p-2) of the companion (i32 u32: 64, i64 u64: 512), floats +-largest finite -- TLC-enumerated (sample level: "
+    "every such value x every gain / offset of the model; frames of widths 0..4; slices of 1..2 frames) and seeded random on every width",
     "offsets / gains are chosen so that the mathematical result stays representable; events outside that domain carry no claim "
-    "(Trace_Frame counts them and fails the run as vacuous when they exceed half of the arithmetic events)",
+    "(Trace_Frame counts them and fails the run as vacuous when they exceed half of the arithmetic events) -- EXCEPT the gain 1.0, "
+    "which the property claims on every value: where the float image of the sample is +1.0 (top 64 values of i32 u32, top 512 of "
+    "i64 u64) the result must be a value of the format within 2^(bits-p-2) of the original (Frames.tla MulAmpOk / AddMulOk)",
 ]
 
 
